@@ -24,6 +24,9 @@ pub enum WDec {
     Full,
     /// report success for the whole buffer but store nothing (lost write)
     Lost,
+    /// accept the buffer, but first run another operation of the crate on this thread, from
+    /// inside the call (a sink that itself serialises a value - a logging or tee writer)
+    Reenter,
     /// the process dies inside this call: `keep_call` bytes of this buffer reach the medium,
     /// then of everything not yet made durable only the first `keep_tail` bytes survive
     Crash { keep_call: usize, keep_tail: usize },
@@ -47,6 +50,9 @@ pub enum RDec {
     Hard,
     /// `Ok(0)` although bytes remain
     Eof,
+    /// deliver the whole buffer, but first deserialise another value on this thread from inside
+    /// the call
+    Reenter,
 }
 
 /// Decision for one `fmt::Write::write_str` call on the simulated formatter sink.
@@ -55,6 +61,9 @@ pub enum FDec {
     Accept,
     FailTransient,
     FailSticky,
+    /// accept the fragment, but first print another value on this thread from inside the call
+    /// (a formatter sink that itself formats a value)
+    Reenter,
 }
 
 /// How the stored text is handed to `Deserialize`.
@@ -155,6 +164,10 @@ pub struct Knobs {
     /// `serde_json::to_writer_pretty` instead of `to_writer`
     pub pretty: bool,
     pub fmt_shape: FmtShape,
+    /// the value used by re-entrant operations: a sibling of the outer value (same version,
+    /// other build metadata) instead of an unrelated constant
+    #[serde(default)]
+    pub nested_sibling: bool,
 }
 
 impl Default for Knobs {
@@ -164,6 +177,7 @@ impl Default for Knobs {
             sync_each_write: false,
             pretty: false,
             fmt_shape: FmtShape::Plain,
+            nested_sibling: false,
         }
     }
 }
@@ -322,6 +336,9 @@ pub struct FaultCfg {
     pub f_fail_t: u32,
     pub f_fail_s: u32,
     pub flips: u8,
+    pub w_reenter: u32,
+    pub r_reenter: u32,
+    pub f_reenter: u32,
 }
 
 impl FaultCfg {
@@ -382,6 +399,15 @@ impl FaultCfg {
         }
         if rng.coin() {
             c.f_fail_s = *rng.pick(&[20u32, 60, 120]);
+        }
+        if rng.below(4) == 0 {
+            c.w_reenter = *rng.pick(&[20u32, 60, 120]);
+        }
+        if rng.below(4) == 0 {
+            c.r_reenter = *rng.pick(&[20u32, 60]);
+        }
+        if rng.below(4) == 0 {
+            c.f_reenter = *rng.pick(&[20u32, 60, 120]);
         }
         c.flips = match rng.below(8) {
             0 => 1,
